@@ -68,3 +68,42 @@ def argInts (args : List String) (k : String) : Option (List Int) := (arg args k
 def argInt (args : List String) (k : String) : Option Int := (arg args k).bind String.toInt?
 def argNat (args : List String) (k : String) : Option Nat := (arg args k).bind String.toNat?
 end Proto
+
+namespace Proto
+/-- decimal / scientific literal (`-12.5`, `1e-05`, `3`, `.5`) → Float; used only by the driver -/
+def float? (s : String) : Option Float :=
+  let cs := s.toList
+  let (neg, cs) := match cs with
+    | '-' :: r => (true, r)
+    | '+' :: r => (false, r)
+    | r => (false, r)
+  let ip := cs.takeWhile Char.isDigit
+  let r1 := cs.dropWhile Char.isDigit
+  let (fp, r2) := match r1 with
+    | '.' :: r => (r.takeWhile Char.isDigit, r.dropWhile Char.isDigit)
+    | r => ([], r)
+  if ip.isEmpty && fp.isEmpty then none else
+  let ex : Option Int := match r2 with
+    | [] => some 0
+    | e :: r => if e = 'e' || e = 'E' then (String.ofList r).toInt? else none
+  match ex with
+  | none => none
+  | some e =>
+    let mant : Nat := (ip ++ fp).foldl (fun a c => a * 10 + (c.toNat - '0'.toNat)) 0
+    let e' : Int := e - fp.length
+    let v := if e' ≥ 0 then Float.ofScientific mant false e'.toNat else Float.ofScientific mant true (-e').toNat
+    some (if neg then -v else v)
+
+def floats (s : String) : Option (List Float) :=
+  if s = "" || s = "_" then some [] else (s.splitOn ",").mapM float?
+def argFloats (args : List String) (k : String) : Option (List Float) := (arg args k).bind floats
+def argFloat (args : List String) (k : String) : Option Float := (arg args k).bind float?
+/-- 16 significant digits, as `<integer>e<exp>` (parsed by Python's `float`) -/
+def showFloat (x : Float) : String :=
+  if x.isNaN then "nan" else if x.isInf then (if x > 0 then "inf" else "-inf") else
+  if x == 0 then "0e0" else
+  let e := (Float.floor (Float.log10 x.abs)).toInt64.toInt - 15
+  let m := (Float.round (x / Float.pow 10 (Float.ofInt e))).toInt64.toInt
+  s!"{m}e{e}"
+def showFloats (l : List Float) : String := " ".intercalate (l.map showFloat)
+end Proto
